@@ -218,8 +218,20 @@ def _worker(args):
                 drc=p2.returncode, derr=p2.stderr.decode(errors="replace")[-500:], wall=time.time() - t0)
 
 
+def split_verdict(c, v):
+    """(lhs, implementation observation, model observation or None) of a case line and its verdict line"""
+    lhs, _, impl = c.partition(" => ")
+    model = v.split("|| model=", 1)[1] if "|| model=" in v else None
+    return lhs, impl, model
+
+
 class Tally:
-    def __init__(self):
+    def __init__(self, pid=None):
+        self.pid = pid
+        self.unrelated = 0          # disagreements invisible at this property's observation level
+        self.confirmed = []         # (case, verdict, what the oracle / the pinned observation says)
+        self.unconfirmed = []       # relevant disagreements the model-free oracle does not object to
+        self.groups = {}            # C20: history -> implementation observations of its executions
         self.evaluations = 0
         self.tags = {}
         self.distinct = set()
@@ -238,6 +250,11 @@ class Tally:
             vl = fv.readlines()
         if len(cl) != len(vl):
             self.errors.append(f"{res['fam']} seed {res['seed']}: {len(cl)} cases but {len(vl)} verdicts")
+        import project
+        if self.pid == "C20":
+            for c in cl:
+                lhs, _, impl = c.rstrip("\n").partition(" => ")
+                self.groups.setdefault(project.history_key(lhs), []).append(impl)
         for c, v in zip(cl, vl):
             c = c.rstrip("\n")
             v = v.rstrip("\n")
@@ -253,7 +270,31 @@ class Tally:
                 if len(self.samples) < 6 and (self.evaluations % 997 == 1 or len(self.samples) < 2):
                     self.samples.append(c if len(c) < 400 else c[:400] + "…")
             else:
-                self.bad.append((c, v))
+                self.judge(c, v)
+
+    def judge(self, c, v):
+        """a driver BAD line: does it concern this property, and does the implementation's own trace
+        violate the property (model-free oracle), or is only the tie broken?"""
+        import project
+        lhs, impl, model = split_verdict(c, v)
+        if model is not None and self.pid:
+            if not project.relevant(self.pid, lhs, impl, model):
+                self.unrelated += 1
+                return
+        self.bad.append((c, v))
+        orc = project.ORACLE.get(self.pid)
+        if orc is None or model is None:
+            self.confirmed.append((c, v, "the implementation's observation differs from the one the theorems pin"))
+            return
+        try:
+            group = self.groups.get(project.history_key(lhs)) if self.pid == "C20" else None
+            obj = orc(lhs, impl, group)
+        except Exception as e:
+            obj = f"oracle could not read the observation ({e})"
+        if obj:
+            self.confirmed.append((c, v, obj))
+        else:
+            self.unconfirmed.append((c, v))
 
 
 def run_families(pid, fams, seed, tier, nontrivial, corpus_first=True):
@@ -268,7 +309,7 @@ def run_families(pid, fams, seed, tier, nontrivial, corpus_first=True):
             jobs.append((fam, 0, 0, tier, wdir, "corpus", corpus, 1))
         for w in range(workers):
             jobs.append((fam, seed * 1000 + w, count, tier, wdir, w, None, workers))
-    tally = Tally()
+    tally = Tally(pid)
     with concurrent.futures.ThreadPoolExecutor(max_workers=NPROC) as ex:
         for res in ex.map(_worker, jobs):
             tally.absorb(res, nontrivial)
@@ -284,7 +325,7 @@ def exec_lines(lines):
     return list(zip(cases, p2.stdout.splitlines()))
 
 
-def shrink(case_line, budget_s=20):
+def shrink(case_line, budget_s=20, pid=None):
     """delta-debug the comma/semicolon separated lists and hex strings of a BAD case line while
     the driver still says BAD"""
     t0 = time.time()
@@ -292,7 +333,21 @@ def shrink(case_line, budget_s=20):
 
     def is_bad(l):
         r = exec_lines([l])
-        return bool(r) and r[0][1].startswith("BAD")
+        if not (bool(r) and r[0][1].startswith("BAD")):
+            return False
+        if pid is None:
+            return True
+        import project
+        lhs2, impl, model = split_verdict(r[0][0], r[0][1])
+        if model is None or not project.relevant(pid, lhs2, impl, model):
+            return model is None
+        orc = project.ORACLE.get(pid)
+        if orc is None or pid == "C20":
+            return True
+        try:
+            return bool(orc(lhs2, impl, None))
+        except Exception:
+            return True
 
     best = lhs
     improved = True
